@@ -2,10 +2,14 @@
 //
 // Record level (in-package accessors over halfConn): every (version, suite) of both suite tables and the
 // TLS 1.3 table x payload lengths x sequence numbers: the sealed record must open under an independent
-// RFC transcription, decrypt(encrypt(p)) == p, replay/any single-bit flip/any truncation must be rejected;
-// extractPadding against a reference loop on every padding shape.
-// Connection level (E4): all write-size sequences x transport segmentations x negotiated protection classes,
-// then every wire fault of the menu on the application records.
+// RFC transcription (nonce construction included), decrypt(encrypt(p)) == p, replay/any single-bit flip/any
+// truncation must be rejected; extractPadding against a reference loop on every padding shape.
+// Seal level: records protected by an independent reference sealer with every peer-chosen padding length,
+// explicit IV/nonce and TLS 1.3 zero padding must be delivered exactly; wrong padding bytes and inner
+// plaintexts without content type must be rejected.
+// Connection level (E4), both directions: all write-size sequences x transport segmentations x Read buffer
+// sizes x negotiated protection classes, then every wire fault of the menu on the post-handshake records
+// of a single-record and of a multi-record baseline.
 package main
 
 import (
@@ -19,10 +23,16 @@ import (
 
 func main() {
 	ev.Main("C25", "model_checking", func(c *ev.Ctx) {
-		c.Rule("record level: all (suite,version) pairs of the implemented/default/TLS1.3 tables x payload lengths {0,1,7,8,15,16,17,31,32,33,47,255,256,1000,16383,16384} x seq {0,1,2^32,2^40+5} x type {23,22}; per record: independent RFC open, round trip, replay, every single-bit flip (all bits of records <= 100 bytes, first 45/last 40 bytes otherwise; quick: bits 0 and 7 in long bodies), every truncation, one-byte extension. extractPadding: all payloads <= 3 bytes + structured paddings for 11 lengths x 256 padding values x each corrupted byte. connection level: all write-size sequences (len<=2 quick, <=3 thorough) over {0,1,2,16383,16384,16385,40000} x read segmentation x protection classes; faults: xor 01/80 at every byte (quick: stride 3 inside bodies) of the 3 application records + close_notify, truncation at every (quick: 4th) byte, drop/dup/swap records (thorough: fault pairs). distinct = fault cases whose edit was reached.")
-		c.Assume("independent record reference transcribed from RFC 2246/4346/5246 6.2.3, RFC 5288, RFC 7905, RFC 8446 5.2-5.3 using crypto/aes, crypto/cipher, crypto/des, crypto/rc4, crypto/hmac, x/crypto/chacha20poly1305",
+		c.Rule("record level: all (suite,version) pairs of the implemented/default/TLS1.3 tables x payload lengths {0,1,7,8,15,16,17,31,32,33,47,255,256,1000,16383,16384} x seq {0,1,0x80,2^32,2^40+5,0xfedcba9876f5} (quick: 2) x type {23,22}; per record: independent RFC open (TLS 1.3 key/iv from the reference's own HKDF-Expand-Label; nonce = iv XOR seq computed by the reference), RFC 5288 explicit nonce == sequence number, round trip, replay, every single-bit flip (all bits of records <= 100 bytes, first 45/last 40 bytes otherwise; quick: bits 0 and 7 in long bodies), every truncation, one-byte extension. " +
+			"seal level (records protected by an independent reference SEALER, opened by the real decrypt): CBC suites x TLS 1.0/1.1/1.2 x EVERY padding length 0..255 (quick: all 256 for AES-128-CBC-SHA at each version, boundary lengths for the other suites; thorough: all for all) x payload lengths small/~1000/maximal (<= 2^14) x explicit IVs x seq x type must be delivered exactly; the same records with ONE padding byte wrong at EVERY position (xor 01; extremes also 80; thorough: 01,80,ff,->00) and with all padding bytes arbitrary below a correct length byte must be rejected; RFC 5288 records with 4 peer-chosen explicit nonces, RC4 and implicit-nonce AEAD records; TLS 1.3 records with k in {0,1,2,15,16,255,2^14-len} zero bytes after the content type x len {0,1,16,1000,16383,16384} x type {23,22,21; quick: 22,21 for len <= 1000} delivered exactly, all-zero inner plaintexts of 1..16385 bytes rejected (empty inner plaintext and inner plaintext > 2^14+1: observed only). " +
+			"extractPadding: all payloads <= 3 bytes + structured paddings for 11 lengths x 256 padding values x each corrupted byte. " +
+			"connection level, BOTH directions (client writes/server reads and server writes/client reads): all write-size sequences (len<=2 quick, <=3 thorough) over {0,1,2,16383,16384,16385,40000} x transport read segmentation {0,1,1000; thorough +5} x Read buffer {1,7,16384,70000, mixed schedule with zero-length reads} (quick: full product for single writes, each value once for two writes) x 8 (thorough 14) protection classes: concatenation of everything read == everything written, clean EOF, every record <= 2^14 plaintext (wire length + record count), GCM explicit nonces on the wire == sequence numbers. " +
+			"faults on the writer->reader stream after the handshake, both directions, baseline A = writes {100,300,50} and baseline B = one write of 40000 bytes (multi-record): xor 01/80 at every byte (quick: A every 3rd byte inside bodies split between the directions; B header, first, middle, last byte of the first two/last two records) incl. headers, cut at a record boundary (clean EOF allowed: documented in readRecordOrCCS, same as crypto/tls) vs cut INSIDE a record (must be an error other than io.EOF), drop/dup/swap of every record, forged records with length field max+1 and 0xffff (must be record_overflow) and with the maximal legal length (any error), Read buffers {70000,1} (thorough +7, mixed), thorough: fault pairs. In every run what was read is a prefix of what was written and nothing from the faulted record on is delivered. distinct = fault cases whose edit was reached.")
+		c.Assume("independent record reference (opener AND sealer) transcribed from RFC 2246/4346/5246 6.2.3, RFC 5288, RFC 7905, RFC 8446 5.2-5.4/7.1/7.3 using crypto/aes, crypto/cipher, crypto/des, crypto/rc4, crypto/hmac, x/crypto/chacha20poly1305",
 			"plaintext bytes carried by the records before record k are measured by cutting the authentic stream at record k",
-			"records with at most 2^14 plaintext bytes: checked as wire length <= 2^14 + maximal expansion of the protection class AND number of records >= ceil(n/2^14) per Write")
+			"records with at most 2^14 plaintext bytes: checked as wire length <= 2^14 + maximal expansion of the protection class AND number of records >= ceil(n/2^14) per Write",
+			"transport EOF exactly at a record boundary without close_notify may surface as io.EOF (zcrypto conn.go readRecordOrCCS comment, identical in GOROOT crypto/tls); anywhere inside a record it must not",
+			"the explicit nonce of RFC 5288 suites is the record sequence number (documented in halfConn.encrypt)")
 		if c.Replay != nil {
 			var w map[string]any
 			json.Unmarshal(c.Replay, &w)
@@ -37,7 +47,6 @@ func main() {
 		phase("seal", sealLevel)
 		phase("padding", paddingLevel)
 		phase("connection", connLevel)
-		profStop()
 		c.Evaluations.Store(c.Transitions.Load())
 		if c.Distinct.Load() == 0 {
 			c.Distinct.Store(c.States.Load())
